@@ -76,7 +76,13 @@ func (g *Gen) tplCoroutines() []L.Stmt {
 		for s := 0; s < steps; s++ {
 			switch g.n(11, "costep") {
 			case 0, 1:
-				body = append(body, emit(str(cn+" resumed with"), co("yield", g.payload("y")...)))
+				if g.n(4, "hostyield") == 0 {
+					// the yield is made by a host function through the Go API, with more values than it was given
+					g.class("co:yield_from_host_function")
+					body = append(body, emit(str(cn+" resumed with (host yield)"), call(name("hostyield"), g.payload("hy")...)))
+				} else {
+					body = append(body, emit(str(cn+" resumed with"), co("yield", g.payload("y")...)))
+				}
 			case 2:
 				body = append(body, emit(str(cn+" via helper"), call(name(helper), g.payload("h")...)))
 				g.class("co:yield_at_depth")
